@@ -86,3 +86,5 @@ SPEC = dict(contracts=['c18_units.h', 'c18_scale.h', 'c18_scalable.h'], stubs=[]
                           'splitUnit / isScalable / isSIUnit (boost::regex grammar) are ghost inputs'],
             assumptions=['the three cases negative power x both prefixes present are NOT decided (solver does not terminate) and not claimed', 'KERNEL ONLY: the regex grammar (where multi-letter units and powers interact), retrieval invariance under rescaling, reciprocity/composition in double arithmetic are NOT covered',
                          'the factor clause is structural: it states which table entries are divided and when the power is applied, using the same operations as the code'])
+
+SPEC['assumptions'] = list(SPEC.get('assumptions', [])) + ['session 3: scalePositions is a BOUNDED stand-in (2 positions) with getSIScaling as the constants 0.5 / 4.0 (a symbolic factor makes the products symbolic x symbolic); isScalable - isSIUnit / splitUnit are ghost inputs']
